@@ -13,6 +13,25 @@ trap 'rm -rf "$wt"' EXIT
 if [ $head = 1 ]; then git -C /repo archive HEAD | tar -x -C "$wt"; else rsync -a --exclude .git /repo/ "$wt"/; fi
 cd "$wt"
 sed -i '/rom_32Mb.gb\|rom_64Mb.gb/d' gameboy/mooneye_test.go
+# optional extra mooneye ROMs (paths relative to gameboy/testdata/mts-.../), space separated in $EXTRA_ROMS
+if [ -n "$EXTRA_ROMS" ]; then
+cat > gameboy/extra_roms_test.go <<'GO'
+package gameboy
+
+import (
+	"os"
+	"strings"
+	"testing"
+)
+
+func TestExtraROMs(t *testing.T) {
+	for _, f := range strings.Fields(os.Getenv("EXTRA_ROMS")) {
+		filename := "testdata/mts-20221022-1430-8d742b9/" + f
+		t.Run(filename, func(t *testing.T) { runMooneyeTest(t, filename) })
+	}
+}
+GO
+fi
 go test -v -modfile=/tmp/seedkit/go.alt.mod -count=1 ./gameboy/... > "$wt/log" 2>&1
 {
   grep -E "^ *--- (PASS|FAIL): " "$wt/log" | sed -E 's/^ *--- (PASS|FAIL): ([^ ]+).*/\1 \2/' | sort -k2
